@@ -19,6 +19,9 @@ pub(crate) struct QueueInner<S, K: Clone> {
     /// Every stream with the number of the connection it belongs to (0 if the owner does not
     /// number them): two connections of one peer share the key, not the number.
     streams: HashMap<K, (u64, Pin<Box<S>>)>,
+    /// The stream `poll_next` has taken out to poll it (key, connection), and whether it was let
+    /// go of meanwhile - removed, or superseded by a newer connection: then it is not put back.
+    polled: Option<(K, u64, bool)>,
     waker: Option<Waker>,
 }
 
@@ -45,7 +48,25 @@ impl<S, K: Clone + Eq + Hash> QueueInner<S, K> {
         self.insert_conn(k, 0, s)
     }
 
+    /// Notes that the polled stream, if it is the one of `k` (and of connection `conn`, if
+    /// given), is not to be put back.
+    fn let_go_of_polled(&mut self, k: &K, conn: Option<u64>) {
+        if let Some((key, polled, let_go)) = &mut self.polled {
+            if key == k && conn.map_or(true, |conn| conn == *polled) {
+                *let_go = true;
+            }
+        }
+    }
+
+    /// Puts the polled stream back, unless it was let go of while it was out.
+    fn put_back(&mut self, k: K, conn: u64, s: Pin<Box<S>>) {
+        if !matches!(self.polled.take(), Some((_, _, true))) {
+            self.streams.insert(k, (conn, s));
+        }
+    }
+
     pub fn insert_conn(&mut self, k: K, conn: u64, s: S) {
+        self.let_go_of_polled(&k, None);
         self.streams.insert(k.clone(), (conn, Box::pin(s)));
         let priority = self.counter.fetch_add(1, atomic::Ordering::Relaxed);
         self.push_event(ReadyEvent { priority, key: k });
@@ -55,11 +76,13 @@ impl<S, K: Clone + Eq + Hash> QueueInner<S, K> {
     }
 
     pub fn remove(&mut self, k: &K) {
+        self.let_go_of_polled(k, None);
         self.streams.remove(k);
     }
 
     /// Removes the stream of connection `conn`, not one a newer connection registered under `k`
     pub fn remove_conn(&mut self, k: &K, conn: u64) {
+        self.let_go_of_polled(k, Some(conn));
         if matches!(self.streams.get(k), Some((c, _)) if *c == conn) {
             self.streams.remove(k);
         }
@@ -68,6 +91,9 @@ impl<S, K: Clone + Eq + Hash> QueueInner<S, K> {
     /// Drops every stream. A stream that was polled holds (through the waker registered with its
     /// transport) a reference back to this queue, so the queue must let go of the streams explicitly.
     pub fn clear(&mut self) {
+        if let Some((_, _, let_go)) = &mut self.polled {
+            *let_go = true;
+        }
         self.streams.clear();
         self.ready_queue.clear();
         self.queued.clear();
@@ -156,7 +182,10 @@ where
                     }
                 };
                 match inner.streams.remove(&event.key) {
-                    Some((conn, stream)) => (event, conn, stream),
+                    Some((conn, stream)) => {
+                        inner.polled = Some((event.key.clone(), conn, false));
+                        (event, conn, stream)
+                    }
                     None => continue,
                 }
             };
@@ -178,9 +207,9 @@ where
                         priority,
                         key: event.key.clone(),
                     });
-                    // A stream registered under this key while this one was being polled is a
-                    // newer connection of the same peer: it stays, this one is dropped.
-                    inner.streams.entry(event.key).or_insert((conn, io_stream));
+                    // (not if its connection was forgotten, or a newer connection of the peer
+                    // registered, while it was being polled: then it is dropped)
+                    inner.put_back(event.key, conn, io_stream);
                     drop(inner);
                     fair_queue.last_conn = conn;
                     return Poll::Ready(item);
@@ -189,6 +218,7 @@ where
                     // Peer disconnected. Don't put the stream back.
                     // Continue to poll other streams instead of returning None immediately.
                     drop(io_stream);
+                    fair_queue.inner.lock().polled = None;
                     if let Some(on_stream_end) = &fair_queue.on_stream_end {
                         on_stream_end(&event.key, conn);
                     }
@@ -196,8 +226,7 @@ where
                 }
                 Poll::Pending => {
                     let mut inner = fair_queue.inner.lock();
-                    // (as above: never put this stream back over a newer one)
-                    inner.streams.entry(event.key).or_insert((conn, io_stream));
+                    inner.put_back(event.key, conn, io_stream);
                     pending_polls += 1;
                     if pending_polls > inner.streams.len() {
                         // Every stream had its turn. A stream that wakes itself while answering
@@ -229,6 +258,7 @@ impl<S, K: Clone> FairQueue<S, K> {
                 ready_queue: BinaryHeap::new(),
                 queued: HashMap::new(),
                 streams: HashMap::new(),
+                polled: None,
                 waker: None,
             })),
         }
